@@ -236,7 +236,8 @@ def run_case(case):
                 h = F.Hand(Addr('h%d' % host))
                 h.transport = Tr(w)
                 hands[w] = h
-                h.dataReceived(frame(M.make(typ=M.Type.register, inc=1, rev='REV' if ok else 'OLD')))
+                # incarnation 0 is what a worker's first start announces (check_06.sh: -i 0)
+                h.dataReceived(frame(M.make(typ=M.Type.register, inc=(w + host) % 3, rev='REV' if ok else 'OLD')))
             elif k == 'poll':
                 _, w, ok = ev
                 h = F.Hand(Addr('h9'))
